@@ -16,7 +16,7 @@ RULE = ('generated cases against the ASan+UBSan agent (wasi.c) and, for thread-s
         'NUL-terminated copies must match exactly; (clock_time_get) every clock id 0-3 sandwiched between two reads of the same '
         'host clock in the same process (t0 <= result <= t1, ns), monotonic clock non-decreasing along the history, ids >= 4 and '
         'random 32-bit ids => EINVAL; (random_get) lengths {0,1,255,256,257,4096,65536,2^20, random}: success, canaries outside '
-        '[p,p+len) intact, every 64-byte block inside changed; (proc_exit) agent exit status == code for codes 0-255; '
+        '[p,p+len) intact, every 64-byte block inside changed, also while signals with a handler arrive every 50-200 us; (proc_exit) agent exit status == code for codes 0-255; '
         '(thread-spawn) T host threads x K spawns on one instance: returned ids distinct and positive, wasi_thread_start logged '
         'exactly once per spawn with that id and argument through the PARENT memory, negative result when the export is missing. '
         'Non-trivial = args/env with >= 1 empty and >= 1 > 4 KiB string, a random_get length > 256 that is not a multiple of 256, '
@@ -132,7 +132,11 @@ def case_misc(ch):
             ops.append(['badclock', ch.pick((4, 5, 255, 0x7fffffff, 0x80000000, 0xffffffff, 4 + ch.bits(31))), bool(ch.below(2))])
         else:
             ops.append(['random', ch.pick((0, 1, 63, 64, 255, 256, 257, 300, 4096, 65536, 1 << 20, 1 + ch.below(5000), 256 * (1 + ch.below(9)))),
-                        ch.below(1 << 12), bool(ch.below(2)), ch.below(4) == 0])
+                        ch.below(1 << 12), bool(ch.below(2)), ch.below(4) == 0,
+                        # signals (SIGALRM with a handler, every 50-200 microseconds) arriving while the call runs
+                        ch.pick((0, 0, 50, 200))])
+            if ops[-1][5] and ch.below(2):
+                ops[-1][1] = ch.pick((1 << 20, 1 << 21, 300000, 65536))
     ops.append(['exit', ch.pick((0, 1, 2, 42, 97, 98, 99, 100, 127, 128, 200, 255, ch.below(256))), bool(ch.below(2))])
     return {'kind': 'misc', 'ops': ops}
 
@@ -174,7 +178,11 @@ def run_misc(case):
                 if len(op) > 4 and op[4] and ln:
                     base, tail = 64 * 65536 - ln, 0                                     # buffer ends at the end of memory
                 ag.fill(base - 64, ln + 64 + tail)
+                if len(op) > 5 and op[5]:
+                    ag._send('sigstorm %d' % op[5])
                 rc = ag.call('random_get', unstable, base, ln)
+                if len(op) > 5 and op[5]:
+                    ag._send('sigstorm 0')
                 if rc != 0:
                     return 'random-errno', 'random_get(len=%d at 0x%x) failed with errno %d (%s)' % (ln, base, rc, W.ename(rc))
                 raw = ag.peek(base - 64, ln + 64 + tail) + b'\xcd' * (64 - tail)
